@@ -272,6 +272,8 @@ func checkC04(c *Ctx) {
 	r.Rule("R04.2", "no raw user bytes: in JSON mode (mode bits pruned, testing/debug dump excluded) every site that copies a non-constant string into the record verbatim carries only strconv/time output or a user marshaller's output; message, keys, values, error text, fallback formatting, logger name and frame strings reach the record only through the escaper")
 	r.Rule("R04.3", "value tokens: the only literal value constants written in JSON mode are JSON literals (null/true/false); floating-point text (which can be NaN/Inf) is always written between quotes in JSON mode, on every call chain from the value switch down to strconv.AppendFloat")
 	r.Rule("R04.4", "object bracketing: the member-list emitter is always called between an opening and a closing brace emitted by the same function in JSON mode (top level and nested groups), and a member separator is not written right after an opening brace")
+	r.Rule("R04.9", "member grammar: in the member-list emitter every mode-feasible path from a member separator to the next element (or out of the function) writes a key, and every path from a key writes a value (the value switch, the timestamp printer or a value stringer), so no element is dropped after its separator")
+	r.Rule("R05.10", "(shared with C05) the message is handed on as given from the verbs to the encoder's message field")
 	r.Rule("R04.5", "framing: the only constant containing a line break that JSON mode can emit is the one End(true) writes")
 	r.Rule("R04.8", "value fidelity (necessary for 'decodes to what was logged'): in JSON mode every floating-point value is rendered by strconv with precision -1 and the bit size of its own static type, every integer in base 10, and every time VALUE with a constant layout that has nanosecond digits and a zone; the parameters are resolved to constants over all call chains")
 	r.Rule("R08.1", "(shared with C08) what a record says was logged by this call: nothing on the print path writes memory that outlives the call other than the pooled objects of this call")
@@ -296,8 +298,10 @@ func checkC04(c *Ctx) {
 		c04Tokens(c, p, m, mr)
 		valueFidelity(c, p, m, mr, "R04.8")
 		escaperNoLoss(c, p, "R04.8")
+		messageIdentity(c, p, "R05.10")
 		c08Stores(c, p, m)
 		c04Brackets(c, p, m, mr)
+		c04Members(c, p, m, mr)
 		newlineRule(c, p, mr, "R04.5", map[string]string{"PrintCtx.End": "the record terminator of End(true)", "PrintCtx.EndArray": "EndArray(newline) for user marshallers", "Entry.printImpl": "blank-line shortcut"})
 		fieldOrder(c, p, m, jsonMode, "R04.6", []string{"Begin", "printTimestamp", "printLoggerName", "printSeverity", "printMsg", "serializeAttrs", "printPC", "printRestLinesOfMsg", "End", "Bytes", "printOut"}, map[string]bool{"printPC": true, "printRestLinesOfMsg": true})
 		c04Keys(c, p, m)
@@ -692,6 +696,146 @@ func c04Brackets(c *Ctx, p *Prog, m *Model, mr *ModeReach) {
 		}
 	}
 	r.Check(found && guarded, "R04.4", "separator:after-brace", p.FuncPos(sa), "the member separator is suppressed right after an opening brace", "the member separator is written unconditionally: the first member of a nested object is preceded by a comma ({,\"a\":1})")
+}
+
+// c04Members: R04.9 — a member separator commits the emitter to a member. In the member-list emitter, on every
+// mode-feasible path from the separator to the next turn of the loop (or out of the function) a key is written,
+// and from the key a value: an element skipped after its separator leaves ",," or a trailing comma in the object.
+func c04Members(c *Ctx, p *Prog, m *Model, mr *ModeReach) {
+	r := c.R
+	sa := p.Func(p.Slog, "serializeAttrs")
+	if sa == nil || !mr.Has(sa) {
+		r.Unk("R04.9", "members:serializeAttrs", "-", "member-list emitter not found in mode %s", mr.Mode)
+		return
+	}
+	comma := p.Method(p.Slog, "PrintCtx", "pcAppendComma")
+	keyFn := p.Method(p.Slog, "PrintCtx", "pcAppendStringKey")
+	ph := privateHelper(p)
+	memo := map[*ssa.Function]map[*ssa.Function]bool{}
+	var reaches func(fn, target *ssa.Function, depth int) bool
+	reaches = func(fn, target *ssa.Function, depth int) bool {
+		if fn == target {
+			return true
+		}
+		if depth > 3 || fn == nil || !ph(fn) {
+			return false
+		}
+		if memo[fn] == nil {
+			memo[fn] = map[*ssa.Function]bool{}
+		}
+		if v, ok := memo[fn][target]; ok {
+			return v
+		}
+		memo[fn][target] = false
+		for _, cs := range callsIn(fn) {
+			if reaches(calleeOf(cs), target, depth+1) {
+				memo[fn][target] = true
+				return true
+			}
+		}
+		return false
+	}
+	var isValue func(cs ssa.CallInstruction) bool
+	isKey := func(cs ssa.CallInstruction) bool {
+		cal := calleeOf(cs)
+		return cal != nil && !isValue(cs) && reaches(cal, keyFn, 0)
+	}
+	isValue = func(cs ssa.CallInstruction) bool {
+		if n := invokeName(cs); n == "WriteValue" || n == "SerializeValueTo" {
+			return true
+		}
+		cal := calleeOf(cs)
+		if cal == nil {
+			return false
+		}
+		for _, n := range []string{"appendValue", "appendTimestamp"} {
+			if t := p.Method(p.Slog, "PrintCtx", n); t != nil && reaches(cal, t, 0) {
+				return true
+			}
+		}
+		return false
+	}
+	// escapes: from the instruction after 'from', can control come back to from's block or leave the function
+	// without executing a call satisfying stop?
+	escapes := func(from ssa.CallInstruction, stop func(ssa.CallInstruction) bool) string {
+		blk := from.Block()
+		scan := func(b *ssa.BasicBlock, start int) bool { // true if a stop call is found
+			for _, in := range b.Instrs[start:] {
+				if cs, ok := in.(ssa.CallInstruction); ok && cs != from && stop(cs) {
+					return true
+				}
+			}
+			return false
+		}
+		idx := 0
+		for i, in := range blk.Instrs {
+			if in == ssa.Instruction(from) {
+				idx = i + 1
+			}
+		}
+		if scan(blk, idx) {
+			return ""
+		}
+		seen := map[*ssa.BasicBlock]bool{}
+		var why string
+		var dfs func(b *ssa.BasicBlock)
+		dfs = func(b *ssa.BasicBlock) {
+			if why != "" {
+				return
+			}
+			succs := feasibleSuccs(b, mr.Mode)
+			if len(succs) == 0 {
+				if _, isPanic := b.Instrs[len(b.Instrs)-1].(*ssa.Panic); !isPanic {
+					why = "the function is left"
+				}
+				return
+			}
+			for _, s := range succs {
+				if s == blk {
+					why = "the loop goes on to the next element"
+					return
+				}
+				if seen[s] {
+					continue
+				}
+				seen[s] = true
+				if scan(s, 0) {
+					continue
+				}
+				dfs(s)
+			}
+		}
+		dfs(blk)
+		return why
+	}
+	n := 0
+	var probs []string
+	for _, cs := range callsIn(sa) {
+		if !mr.Blocks[sa][cs.Block()] {
+			continue
+		}
+		switch {
+		case calleeOf(cs) == comma && inLoop(cs.Block()):
+			n++
+			if why := escapes(cs, isKey); why != "" {
+				probs = append(probs, fmt.Sprintf("after the member separator at %s %s without a key having been written", p.Pos(instrPos(cs)), why))
+			}
+		case isKey(cs) && inLoop(cs.Block()):
+			n++
+			if why := escapes(cs, isValue); why != "" {
+				probs = append(probs, fmt.Sprintf("after the key at %s %s without a value having been written", p.Pos(instrPos(cs)), why))
+			}
+		}
+	}
+	key := fmt.Sprintf("members[%s]:serializeAttrs", mr.Mode)
+	switch {
+	case n < 2:
+		r.Unk("R04.9", key, p.FuncPos(sa), "separator/key sites not recognised in the member loop (%d)", n)
+	case len(probs) > 0:
+		r.Bad("R04.9", key, p.FuncPos(sa), "the member list is not separator-key-value on every path: %s", strings.Join(probs, "; "))
+	default:
+		r.Ok("R04.9", key, p.FuncPos(sa), "on every feasible path a separator is followed by a key and a key by a value before the next element (%d sites)", n)
+	}
 }
 
 func containsCall(calls []ssa.CallInstruction, c ssa.CallInstruction) bool {
